@@ -152,7 +152,9 @@ def run(tier, repo):
     f = F.fn("tls_handshake::TlsClientHelloContents::<'a>::get_ciphers")
     if rp.check(f is not None, "CIPHER-MAP", "get_ciphers/present", "src/tls_handshake.rs", "get_ciphers not found"):
         s = body_sym(F, f)
-        rp.check(is_lookup_map(s, fld(P("self"), "ciphers")), "CIPHER-MAP", "get_ciphers", site(f), "get_ciphers is not self.ciphers.iter().map(lookup).collect()", found=sym_str(s)[:300])
+        # through the field, or through the accessor ciphers() (ACCESSOR-IDENTITY establishes that it returns the field)
+        rp.check(is_lookup_map(s, fld(P("self"), "ciphers")) or is_lookup_map(s, ["mcall", "tls_handshake::ClientHello::ciphers", [P("self")]]), "CIPHER-MAP", "get_ciphers", site(f),
+                 "get_ciphers is not self.ciphers.iter().map(lookup).collect()", found=sym_str(s)[:300])
     f = F.fn("tls_handshake::TlsServerHelloContents::<'a>::get_cipher")
     if rp.check(f is not None, "CIPHER-MAP", "get_cipher/present", "src/tls_handshake.rs", "get_cipher not found"):
         s = body_sym(F, f)
